@@ -161,7 +161,7 @@ func Harness_C18_fixpoint() {
 // inside those - must be reported reachable when main and init are the roots; the reported set stays inside the
 // program's functions.
 func Harness_C18_generated_programs() {
-	t1 := verifPick("t1", 0, 26)
+	t1 := verifPick("t1", 0, dataflow.VerifNumTransports-1)
 	variant := verifPick("variant", 0, 1)
 	split := verifPick("split", 0, 1)
 	w := dataflow.VerifBuildPtrProgram([]int{t1}, []int{variant}, 0, split)
